@@ -82,7 +82,7 @@ fn nontrivial(prop: &str, r: &RunReport) -> bool {
         "C09" => f("write_channel_full") > 0 || f("parked_in_sync_steps") > 0 || r.ops > 400,
         "C10" => f("c10_checks_after_removal") > 0,
         "C11" => f("c11_dropped_with_queue") > 0 || f("c10_checks_after_removal") > 0,
-        "C12" => f("c12_evictions") > 0,
+        "C12" => f("c12_evictions") > 0 || f("c12_applied_order_pairs") > 0,
         "C13" => f("c13_no_room_inserts") > 0,
         "C15" => f("c15_nontrivial") > 0,
         "C16" => f("iterations") > 0 || f("c16_iter_with_writer_step") > 0,
